@@ -4,7 +4,6 @@ import (
 	"fmt"
 	"html/template"
 	"math"
-	"net"
 	"reflect"
 	"strings"
 
@@ -378,7 +377,7 @@ func c19Run(b *core.B) {
 		{template.HTML("<b>x</b>"), 8}, {namedStr("named"), 5}, {c19PtrTo(namedStr("pn")), 2}, {c19PtrTo("plain"), 5}, {c19PtrTo(template.HTML("é")), 2},
 		{c19Ints{1, 2, 3}, 3}, {c19Map{"a": 1}, 1}, {&c19Ints{4}, 1}, {[]namedStr{"a", "b"}, 2}, {[2]template.HTML{}, 2},
 		// ... also when the type has methods of its own (String, HTML, Error): the length is that of the value, not of a text
-		{c19Tags{"go", "web", "x"}, 3}, {&c19Tags{"go"}, 1}, {net.IP{10, 0, 0, 1}, 4}, {c19Set{"a": true, "b": true}, 2}, {c19Word("hello"), 5}, {c19Pair{1, 2}, 2}, {c19Errs{"e1"}, 1},
+		{c19Tags{"go", "web", "x"}, 3}, {&c19Tags{"go"}, 1}, {c19IP{10, 0, 0, 1}, 4}, {c19Set{"a": true, "b": true}, 2}, {c19Word("hello"), 5}, {c19Pair{1, 2}, 2}, {c19Errs{"e1"}, 1},
 	}
 	for _, c := range lens {
 		if !mine() || !b.Begin(fmt.Sprintf("len(%#v)", c.v)) {
@@ -568,3 +567,10 @@ func (p c19Pair) HTML() template.HTML { return "<i>pair of two numbers</i>" }
 type c19Errs []string
 
 func (e c19Errs) Error() string { return "several errors happened here" }
+
+// c19IP is a byte slice with a String method, like net.IP. (Package net itself is kept out of the harness: it links
+// cgo in, and with cgo the runtime no longer reports "all goroutines are asleep - deadlock!", which is how a lock
+// left locked by the library shows up in a worker.)
+type c19IP []byte
+
+func (ip c19IP) String() string { return fmt.Sprintf("%d.%d.%d.%d", ip[0], ip[1], ip[2], ip[3]) }
